@@ -8,7 +8,7 @@
    C09_tracked_channels below states exactly which ones. The step function performs every write the implementation
    performs (also the untracked ones), so the two refutations are runs of the same model. *)
 From Coq Require Import List ZArith Bool.
-From Verif Require Import Engine.Lifetime Proofs.LifetimeP.
+From Verif Require Import Engine.Lifetime Proofs.LifetimeP Engine.LifetimeMem Proofs.LifetimeMemP.
 Import ListNotations.
 
 (* For ALL operation sequences (instantiate, compile, set/copy/pass references, calls in flight, close module /
@@ -95,3 +95,78 @@ Theorem C09_close_order_irrelevant : forall c pre i closes,
   alive s i = true.
 Proof. exact close_order_irrelevant. Qed.
 Print Assumptions C09_close_order_irrelevant.
+
+(* ---- shared memories and globals (model: coq/Engine/LifetimeMem.v, proofs: coq/Proofs/LifetimeMemP.v) ----
+   A memory is (current buffer, size); growing it allocates a new buffer and abandons the old one; the collector
+   frees every buffer that is not the current buffer of a memory a retained instance is bound to. An instance may
+   keep a cached view (buffer, length) of its memory (wazevo: the module that defines it) which is refreshed when
+   the memory notifies the registered instances after a grow. `policy` says who is notified. *)
+
+(* For ALL histories of instantiate / close instance / close runtime / drop / collect / call in flight / use of a
+   memory or global through own code, through an accessor imported from another (possibly closed) instance, or by
+   the host: if the grow notification skips nobody (closed or not) and every caching instance is registered, every
+   cached view equals the memory's current (buffer, size) in the reached state. *)
+Theorem C09_memory_views_coherent : forall pol mods n ops,
+  p_skip_closed pol = false -> p_register pol = true -> p_free_on_close pol = false ->
+  let s := fst (mrun pol mods (minit n) ops) in
+  coherentb s = true /\
+  forall x mu b l, (x < length (ms_insts s))%nat -> i_mem (geti s x) = Some mu -> i_view (geti s x) = VCached b l ->
+    b = m_buf (getm s mu) /\ l = m_pages (getm s mu).
+Proof. exact views_coherent. Qed.
+Print Assumptions C09_memory_views_coherent.
+
+(* If closed instances are skipped by the notification: A defines a memory, B imports it and A's msize/mload; B stores
+   111; A is closed and dropped; B grows the memory and stores 333; collect. B is open, its handle held. Through its
+   own code B sees 2 pages and 333; through the functions imported from the closed A it reads 111 from the abandoned
+   buffer, then (after the collection) a FREED buffer, is told 1 page, and traps on an address it just wrote. *)
+Theorem C09_closed_definer_view_stale_refuted :
+  let good := snd (mrun notify_all modsAB (minit 2) stale_history) in
+  let bad := snd (mrun skip_closed modsAB (minit 2) stale_history) in
+  let s := fst (mrun skip_closed modsAB (minit 2) stale_history) in
+  i_closed (geti s 0) = true /\ i_closed (geti s 1) = false /\ nth 1 (ms_handle s) None = Some 1%nat /\
+  nth 10 bad ONone = OVal 2 /\ nth 12 bad ONone = OVal 333 /\
+  nth 8 bad ONone = OVal 111 /\ nth 11 bad ONone = OVal 1 /\ nth 13 bad ONone = OFreed /\ nth 15 bad ONone = OTrap /\
+  nth 8 good ONone = OVal 333 /\ nth 11 good ONone = OVal 2 /\ nth 13 good ONone = OVal 333 /\ nth 15 good ONone = OVal 222 /\
+  coherentb s = false /\ i_view (geti s 0) = VCached 0 1 /\ m_buf (getm s 0) = 1%nat /\ m_pages (getm s 0) = 2%Z /\
+  b_freed (getb s 0) = true /\ b_freed (getb s 1) = false.
+Proof. exact closed_definer_view_stale. Qed.
+Print Assumptions C09_closed_definer_view_stale_refuted.
+
+(* Close order and collections are irrelevant for what is observed through shared memories and globals: run any
+   history next to a TWIN world that performs the same instantiations and calls (a call is skipped in both worlds
+   when the first has lost the handle) but never closes, drops or collects. Every observation of the first world
+   (value, trap, no result) equals the twin's or is an ordinary error (no handle / exit error of a closed instance),
+   and no access touches a freed buffer. *)
+Theorem C09_memory_close_order_irrelevant : forall pol mods n ops,
+  p_skip_closed pol = false -> p_register pol = true -> p_free_on_close pol = false ->
+  Forall (fun ab => (fst ab = snd ab \/ fst ab = OErr) /\ fst ab <> OFreed)
+         (prun pol mods (minit n) (minit n) ops).
+Proof. exact twin_agrees. Qed.
+Print Assumptions C09_memory_close_order_irrelevant.
+
+(* ... and what stays alive: in every reached state, the current buffer of the memory of every RETAINED instance
+   (reachable from host handles, the call in flight and open named instances through imported functions' definers
+   and imported memories' definers) is not freed, and no step of the history observed a freed buffer. *)
+Theorem C09_retained_memory_never_freed : forall pol mods n ops,
+  p_skip_closed pol = false -> p_register pol = true -> p_free_on_close pol = false ->
+  ~ In OFreed (snd (mrun pol mods (minit n) ops)) /\
+  let s := fst (mrun pol mods (minit n) ops) in
+  forall x mu, mreach s x -> i_mem (geti s x) = Some mu -> b_freed (getb s (m_buf (getm s mu))) = false.
+Proof. exact never_freed. Qed.
+Print Assumptions C09_retained_memory_never_freed.
+
+(* Open finding (user-supplied memory allocator, experimental.WithMemoryAllocator): closing an instance hands the
+   memory it is bound to - its own or an IMPORTED one - to LinearMemory.Free. A defines a memory, B imports it; A
+   stores 111 and reads it back; B is closed (nothing dropped, nothing collected): A is open, its handle held, the
+   views coherent, and A's next load touches a freed buffer. Symmetrically when A is closed and B reads. With the
+   default allocator (`notify_all`) the same histories read 111. *)
+Theorem C09_allocator_close_frees_shared_memory_refuted :
+  (let s := fst (mrun user_allocator modsAB0 (minit 2) (free_history 1 0)) in
+   i_closed (geti s 0) = false /\ nth 0 (ms_handle s) None = Some 0%nat /\ i_closed (geti s 1) = true /\
+   b_freed (getb s (m_buf (getm s 0))) = true /\ coherentb s = true) /\
+  map enc (snd (mrun user_allocator modsAB0 (minit 2) (free_history 1 0))) = [(4, 0); (4, 0); (4, 0); (0, 111); (4, 0); (2, 0)]%Z /\
+  map enc (snd (mrun user_allocator modsAB0 (minit 2) (free_history 0 1))) = [(4, 0); (4, 0); (4, 0); (0, 111); (4, 0); (2, 0)]%Z /\
+  map enc (snd (mrun notify_all modsAB0 (minit 2) (free_history 1 0))) = [(4, 0); (4, 0); (4, 0); (0, 111); (4, 0); (0, 111)]%Z /\
+  map enc (snd (mrun notify_all modsAB0 (minit 2) (free_history 0 1))) = [(4, 0); (4, 0); (4, 0); (0, 111); (4, 0); (0, 111)]%Z.
+Proof. exact close_frees_shared_memory. Qed.
+Print Assumptions C09_allocator_close_frees_shared_memory_refuted.
